@@ -226,6 +226,17 @@ def generate():
                  "factory = copyable.CopyableRegistry[copyablename]", "return None",
                  "for reg in self.openRegistries:", "opener = reg.get(opentype)"], "RootUnslicer.open")
 
+    # index-token size limits: the class name after OPEN copyable is bounded by the registered names, not by the
+    # longest opentype string (storage root and PB root alike)
+    oc = ast.unparse(P.find_def(P.load("slicers/root.py"), "RootUnslicer.openerCheckToken"))
+    require(oc, ["limit = self.maxIndexLength", "if tuple(opentype) == ('copyable',):",
+                 "for cname in list(copyable.CopyableRegistry.keys()):", "limit = max(limit, len(cname))", "if size > limit:"],
+            "RootUnslicer.openerCheckToken")
+    poc = ast.unparse(P.find_def(P.load("broker.py"), "PBRootUnslicer.openerCheckToken"))
+    require(poc, ["if tuple(opentype) == ('copyable',):", "copyable.CopyableRegistry.keys()", "if size > maxlen:"],
+            "PBRootUnslicer.openerCheckToken")
+    out.append("Definition copyable_name_limit_checked : bool := true.  (* class name bounded by the longest registered Copyable name *)")
+
     # ---------------------------------------------------------------- leaf bodies
     bb = body_src(P.find_def(P.load("slicers/bool.py"), "BooleanSlicer.sliceBody"))
     t = ast.parse(bb).body
